@@ -1,5 +1,227 @@
 /-
-C09 — property theorems (stub: no theorem stated yet, so no obligation is counted).
+C09 — I/O faults never hang the BGZF writer or reader and are never swallowed.
+PROPERTY THEOREMS ONLY.
+
+Writer part: statements about the labelled transition system `Hts.Model.WriterLTS` of the writer protocol
+REPAIRED by fixes/C09-1 (`cfg.repaired = true`): for every writer concurrency, every script, every
+interleaving and EVERY fault oracle of the underlying writer (`cfg.fault i` = the i-th underlying Write fails).
+The unchanged protocol (`cfg.repaired = false`) is kept in the same model and its dead state is pinned by
+`writer_deadlock_witness`.  Traces are newest-event-first.
+Reader part: the sequential reader over a fault-injecting source (`Hts.Model.ReaderFaults`).
 -/
+import Hts.Lemmas.WriterLTSAcc
+import Hts.Lemmas.WriterLTSWitness
+import Hts.Lemmas.ReaderFaults
 namespace Hts.Props.C09
+open Hts.Model.WriterLTS
+
+variable {cfg : Cfg} {s t : State}
+
+/-! ### writer: no call hangs -/
+
+/-- In every reachable state either everything is at rest (script finished, nothing queued, the emitter parked
+    on an empty queue or finished) or some thread can take a step — for every number of compressors and every
+    fault point. -/
+theorem writer_deadlock_free (hr : cfg.repaired = true) (h : Reachable cfg s) :
+    AllIdle s ∨ ∃ t, Step cfg s t := by
+  rcases writer_deadlock_free_inv hr (reachable_inv hr h) with h | h
+  · exact .inl h
+  · exact .inr h.step
+
+/-- Every step (of any thread, in either variant of the protocol) strictly decreases `measure` = work left in
+    the script, in the queued blocks and in the emitter.  Hence every path is finite; with
+    `writer_deadlock_free` every maximal path ends with all calls returned. -/
+theorem writer_call_terminates (h : Step cfg s t) : measure t < measure s := by
+  obtain ⟨l, e, h⟩ := h
+  exact next_measure h
+
+/-- there is no infinite execution -/
+theorem writer_no_infinite_run (f : Nat → State) : ¬ ∀ i, Step cfg (f i) (f (i + 1)) := by
+  intro h
+  have key : ∀ i, measure (f i) + i ≤ measure (f 0) := by
+    intro i
+    induction i with
+    | zero => simp
+    | succ i ih => have := writer_call_terminates (h i); omega
+  have := key (measure (f 0) + 1)
+  omega
+
+/-- `n` consecutive steps -/
+inductive StepN (cfg : Cfg) : Nat → State → State → Prop
+  | zero {a : State} : StepN cfg 0 a a
+  | succ {n : Nat} {a b c : State} : Step cfg a b → StepN cfg n b c → StepN cfg (n + 1) a c
+
+/-- a path of `n` steps from `s` has `n ≤ measure s`: the number of steps any call can wait for is bounded -/
+theorem writer_path_bounded {n : Nat} (h : StepN cfg n s t) : n + measure t ≤ measure s := by
+  induction h with
+  | zero => simp
+  | succ hst _ ih => have := writer_call_terminates hst; omega
+
+/-- Every pending call returns: however far an execution has got, it is either at rest with the API goroutine
+    returned from its last call, or it can be continued, and every continuation reaches such a state within
+    `measure` steps (maximal paths are finite by `writer_path_bounded` and cannot stop elsewhere). -/
+theorem writer_calls_return (hr : cfg.repaired = true) (h : Reachable cfg s) :
+    ∃ k u, StepN cfg k s u ∧ AllIdle u ∧ ApiDone u := by
+  generalize hm : measure s = m
+  induction m using Nat.strongRecOn generalizing s with
+  | _ m ih =>
+    rcases writer_deadlock_free hr h with hidle | ⟨t, hst⟩
+    · exact ⟨0, s, .zero, hidle, hidle.1⟩
+    · have hlt := writer_call_terminates hst
+      obtain ⟨k, u, hk, hu⟩ := ih (measure t) (hm ▸ hlt) (.step h hst) rfl
+      exact ⟨k + 1, u, .succ hst hk, hu⟩
+
+/-- After `Close` has returned (with or without an error) the emitter goroutine has finished, no compressor
+    goroutine is running and nothing is pending. -/
+theorem writer_no_leak (hr : cfg.repaired = true) {tr : List Ev} {r : Res} {m : Nat} (h : Run cfg tr s)
+    (hmem : .ret .close r m ∈ tr) : NoLibraryThread s := by
+  obtain ⟨hi, hR⟩ := run_inv hr h
+  obtain ⟨hc, ha, -⟩ := hR.closeRet r m hmem
+  have hne : s.api ≠ .cJoin := by
+    intro h'; simp [h', apiAfterCloseRet] at ha
+  have hd := hi.joined hc hne
+  have hq := (hi.emDone hd).2
+  exact ⟨hd, hq, by simp [hi.pend, hq, hd, emPend]⟩
+
+/-! ### writer: the error is never swallowed -/
+
+/-- A `Close` that returns after an underlying write has failed returns an error. -/
+theorem writer_error_latched (hr : cfg.repaired = true) {tr post mid : List Ev} {r : Res} {m : Nat}
+    {b : Option Nat} (h : Run cfg tr s) (htr : tr = post ++ .ret .close r m :: mid) (hf : .uw b false ∈ mid) :
+    r = .err :=
+  close_err_after_failure hr h htr hf
+
+/-- Once the latch is visible (`s.err`), every call that returns — `Write`, `Flush`, `Wait`, `Close` — returns
+    an error. -/
+theorem writer_error_visible (hr : cfg.repaired = true) (h : Reachable cfg s) (he : s.err = true)
+    {l : Label} {op : Op} {r : Res} {m : Nat} (hn : next cfg s l = some (some (.ret op r m), t)) : r ≠ .ok := by
+  obtain ⟨-, -, -, -, -, -, -, -, -, -, -, h12, -, -⟩ := ret_step (reachable_inv hr h) hn rfl
+  exact h12 he
+
+/-- Once any call has reported the error, no later call returns nil. -/
+theorem writer_error_sticky (hr : cfg.repaired = true) {tr post mid : List Ev} {op : Op} {m : Nat}
+    (h : Run cfg tr s) (htr : tr = post ++ .ret op .err m :: mid) :
+    ∀ op' r' m', .ret op' r' m' ∈ post → r' ≠ .ok :=
+  error_sticky hr h htr
+
+/-- After a failed underlying write nothing more is written to the underlying writer (neither a later block nor
+    the EOF marker), so the delivered bytes stay a sequence of whole blocks. -/
+theorem writer_no_write_after_failure (hr : cfg.repaired = true) {tr post mid : List Ev} {b : Option Nat}
+    (h : Run cfg tr s) (htr : tr = post ++ .uw b false :: mid) : ∀ b' ok, .uw b' ok ∉ post :=
+  no_write_after_failure hr h htr
+
+/-! ### the unchanged protocol dead-locks (DESIGN §6 #22): pinned counterexample -/
+
+/-- wc = 1 (two compressors), `Write` of two blocks then `Close`; the first underlying write fails -/
+def witnessCfg : Cfg := { wc := 1, script := [.write 2, .close], fault := fun _ => true, repaired := false }
+
+def witnessSchedule : List Label :=
+  [.api, .api, .api, .api, .api, .api,   -- Write: blocks 0 and 1 queued (compressors c0, c1), waits for a compressor
+   .em, .finE, .em,                      -- emitter: block 0 is compressed, its underlying Write fails
+   .em, .em, .em,                        -- qwg.Done, setErr, c0 back to `waiting`; the emitter leaves its loop
+   .api, .api,                           -- Write takes c0, sees the error, returns it
+   .api, .api,                           -- Close is called and queues c0
+   .finQ 0]                              -- block 1 finishes compressing; nobody will ever take it from the queue
+
+/-- The unchanged protocol reaches a state in which `Close` is parked on `<-bg.waiting` (program counter
+    `cTake`), both compressors sit in `queue`, the emitter has exited, and NO thread can step. -/
+theorem writer_deadlock_witness :
+    ∃ s, Reachable witnessCfg s ∧ s.api = .cTake ∧ s.em = .done ∧ ¬ AllIdle s ∧ ¬ ∃ t, Step witnessCfg s t := by
+  have h : ∃ s, runLabels witnessCfg (init witnessCfg) witnessSchedule = some s ∧ s.api = .cTake ∧ s.em = .done ∧
+      ¬ AllIdle s ∧ succs witnessCfg s = [] := by
+    refine ⟨_, rfl, ?_, ?_, ?_, ?_⟩ <;> decide
+  obtain ⟨s, h1, h2, h3, h4, h5⟩ := h
+  exact ⟨s, runLabels_reachable h1 .init, h2, h3, h4, no_step_of_succs_nil h5⟩
+
+/-- `Flush; Wait` on the unchanged protocol with four compressors: `Wait` parks for ever -/
+def witnessWaitCfg : Cfg := { wc := 3, script := [.flush true, .flush true, .wait], fault := fun _ => true, repaired := false }
+
+def witnessWaitSchedule : List Label :=
+  [.api, .api, .api, .api,  .api, .api, .api, .api,   -- two Flushes: blocks 0 and 1 queued
+   .api, .api,                                        -- Wait: latch still clear, blocks on qwg
+   .em, .finE, .em, .em, .em, .em,                    -- emitter: block 0 fails; Done, setErr, break
+   .finQ 0]
+
+theorem writer_wait_deadlock_witness :
+    ∃ s, Reachable witnessWaitCfg s ∧ s.api = .wtBlock ∧ ¬ AllIdle s ∧ ¬ ∃ t, Step witnessWaitCfg s t := by
+  have h : ∃ s, runLabels witnessWaitCfg (init witnessWaitCfg) witnessWaitSchedule = some s ∧ s.api = .wtBlock ∧
+      ¬ AllIdle s ∧ succs witnessWaitCfg s = [] := by
+    refine ⟨_, rfl, ?_, ?_, ?_⟩ <;> decide
+  obtain ⟨s, h1, h2, h3, h4⟩ := h
+  exact ⟨s, runLabels_reachable h1 .init, h2, h3, no_step_of_succs_nil h4⟩
+
+/-- On the unchanged protocol `qwg.Done()` ran before `setErr`: `Flush; Wait` can both return nil although the
+    flushed block's write failed (so `flush_wait_durable` is false there). -/
+def witnessNilCfg : Cfg := { wc := 1, script := [.flush true, .wait], fault := fun _ => true, repaired := false }
+
+def witnessNilSchedule : List Label :=
+  [.api, .api, .api, .api,       -- Flush: block 0 queued, returns nil
+   .api, .api,                   -- Wait called, latch clear, blocks on qwg
+   .em, .finE, .em, .em,         -- emitter: underlying Write of block 0 fails; qwg.Done()  (setErr not yet)
+   .api]                         -- Wait wakes up, reads a clear latch, returns nil
+
+theorem writer_wait_nil_after_failure_witness :
+    ∃ tr s, Run witnessNilCfg tr s ∧
+      tr = [.ret .wait .ok 1, .uw (some 0) false, .call .wait, .ret (.flush true) .ok 1, .call (.flush true)] ∧
+      s.out = [] := by
+  have h : ∃ tr s, runTrace witnessNilCfg [] (init witnessNilCfg) witnessNilSchedule = some (tr, s) ∧
+      tr = [.ret .wait .ok 1, .uw (some 0) false, .call .wait, .ret (.flush true) .ok 1, .call (.flush true)] ∧
+      s.out = [] := by
+    refine ⟨_, _, rfl, ?_, ?_⟩ <;> decide
+  obtain ⟨tr, s, h1, h2, h3⟩ := h
+  exact ⟨tr, s, runTrace_run h1 .init, h2, h3⟩
+
+/-! ### non-vacuity -/
+
+/-- the same script and fault as `writer_deadlock_witness`, on the repaired protocol: `Close` returns an error
+    and every library thread has finished -/
+def repairedCfg : Cfg := { witnessCfg with repaired := true }
+
+def repairedSchedule : List Label :=
+  [.api, .api, .api, .api, .api, .api,
+   .em, .finE, .em,                      -- block 0: underlying Write fails
+   .em, .em, .em,                        -- setErr, qwg.Done, c0 back to `waiting`; the emitter KEEPS going
+   .api, .api,                           -- Write returns the error
+   .api, .api,                           -- Close queues c0
+   .finQ 0, .em, .em, .em, .em,          -- block 1 is drained without being written; c1 goes to `waiting`
+   .api, .api,                           -- Close takes c1, compresses its own block, closes the queue
+   .em, .em, .em, .em, .em,              -- Close's block is drained, the emitter finishes
+   .api, .api, .api]                     -- wg.Wait returns; no EOF marker; Close returns the error
+
+example : ∃ tr s, runTrace repairedCfg [] (init repairedCfg) repairedSchedule = some (tr, s) ∧
+    tr = [.ret .close .err 3, .call .close, .ret (.write 2) .err 2, .uw (some 0) false, .call (.write 2)] ∧
+    AllIdle s ∧ NoLibraryThread s ∧ s.out = [] ∧ s.eof = false := by
+  refine ⟨_, _, rfl, ?_, ?_, ?_, ?_, ?_⟩ <;> decide
+
+/-! ### reader: sequential reader over a source that starts failing -/
+
+section Reader
+open Hts.Model.ReaderFaults
+
+/-- Whatever the fault (an error or a premature end of input, at any byte offset), the bytes returned are a
+    prefix of the file's data. -/
+theorem reader_prefix_under_faults (cut : Option Nat) (kind : FaultKind) (ms : List Member) :
+    ∃ rest, flat ms = (readAll cut kind 0 ms).1 ++ rest :=
+  readAll_prefix cut kind 0 ms
+
+/-- A clean end of data is reported only after all of the data, or — for a source that itself reports a
+    premature end — when that end falls exactly on a member boundary. -/
+theorem reader_clean_eof_only_at_end (cut : Option Nat) (kind : FaultKind) (ms : List Member)
+    (h : (readAll cut kind 0 ms).2 = .eof) :
+    (readAll cut kind 0 ms).1 = flat ms ∨ (kind = .eof ∧ ∃ p, cut = some p ∧ p ∈ boundaries 0 ms) :=
+  readAll_eof cut kind 0 ms h
+
+/-- An error of the underlying reader anywhere up to the end of the file is reported, never turned into a clean
+    end of data. -/
+theorem reader_error_not_swallowed (p : Nat) (ms : List Member) (h : p ≤ fileEnd 0 ms) :
+    (readAll (some p) .err 0 ms).2 = .err :=
+  readAll_err_reported p 0 ms h
+
+/-- non-vacuity: three members of 40, 28 (empty) and 50 bytes; error 10 bytes into the third -/
+example : readAll (some 78) .err 0 [⟨40, [1, 2]⟩, ⟨28, []⟩, ⟨50, [3]⟩] = ([1, 2], .err) := by decide
+example : readAll (some 68) .eof 0 [⟨40, [1, 2]⟩, ⟨28, []⟩, ⟨50, [3]⟩] = ([1, 2], .eof) := by decide
+example : readAll none .err 0 [⟨40, [1, 2]⟩, ⟨28, []⟩, ⟨50, [3]⟩] = ([1, 2, 3], .eof) := by decide
+
+end Reader
+
 end Hts.Props.C09
